@@ -105,6 +105,9 @@ type pending struct {
 	a Action
 }
 
+func (bc *BConn) Lock()   { bc.mu.Lock() }
+func (bc *BConn) Unlock() { bc.mu.Unlock() }
+
 func (bc *BConn) Close() {
 	bc.mu.Lock()
 	if !bc.closed {
@@ -168,6 +171,15 @@ type Cluster struct {
 	malformed   []Malformed
 	log         []*BReq
 	protoStrict bool
+	killProbes  int // close the connection instead of answering the next n CLUSTER NODES requests
+}
+
+// KillProbeConns makes the nodes drop the connection, without answering, on the
+// next n CLUSTER NODES requests.
+func (cl *Cluster) KillProbeConns(n int) {
+	cl.mu.Lock()
+	cl.killProbes = n
+	cl.mu.Unlock()
 }
 
 // Malformed records a request a Redis server would have rejected or that a
@@ -505,7 +517,15 @@ func (bc *BConn) dispatch(args [][]byte, raw []byte) {
 	case cmd == "cluster" && len(args) >= 2 && strings.ToLower(string(args[1])) == "nodes":
 		cl.mu.Lock()
 		f := cl.nodesReply
+		kill := cl.killProbes > 0
+		if kill {
+			cl.killProbes--
+		}
 		cl.mu.Unlock()
+		if kill {
+			a.CloseBeforeReply = true
+			break
+		}
 		if f != nil {
 			a.Reply = f(bc.Node)
 		} else {
